@@ -80,12 +80,16 @@ SPECIAL = {
     'dataCalculatedField': lambda rnd: [table(rnd), 'c', rnd.choice(['a * 2', 'a == 2', "k + a"])],
     'dataValidate': lambda rnd: [table(rnd)],
     'systemIs': lambda rnd: rnd.choice([[1000, 1000], [65536, 65536], [300, 300], [2, 2], [1000, 1001], ['a', 'a'], [None, None]]),
-    'systemCompare': lambda rnd: rnd.choice([[1000, 1000], [1000, 999], [[1000, 2], [1000, 2]], [{'a': 300}, {'a': 300}]]),
-    'arrayIndexOf': lambda rnd: [[1000, 300, 1000, 7], rnd.choice([1000, 300, 7, 8]), rnd.choice([0, 1, 2])],
+    # (large neighbouring integers: equal-looking as floats only to a tolerance-based comparison)
+    'systemCompare': lambda rnd: rnd.choice([[1000, 1000], [1000, 999], [[1000, 2], [1000, 2]], [{'a': 300}, {'a': 300}], [10 ** 9, 10 ** 9 + 1],
+                                             [2 ** 40 + 1, 2 ** 40], [[10 ** 9 + 1], [10 ** 9]], [10 ** 15 - 1, 10 ** 15]]),
+    'arraySort': lambda rnd: [rnd.sample([10 ** 9 + 1, 10 ** 9, 10 ** 9 + 2, 7, 2 ** 40, 2 ** 40 + 1], rnd.randint(2, 5))],
+    'arrayIndexOf': lambda rnd: rnd.choice([[[1000, 300, 1000, 7], rnd.choice([1000, 300, 7, 8]), rnd.choice([0, 1, 2])],
+                                            [[10 ** 9 + 1, 10 ** 9, 7], 10 ** 9, 0], [[2 ** 40, 2 ** 40 + 1], 2 ** 40 + 1]]),
     'arrayLastIndexOf': lambda rnd: [[1000, 300, 1000, 7], rnd.choice([1000, 300, 7, 8])],
     'objectGet': lambda rnd: [{'a': 1000, 'b': 2}, rnd.choice(['a', 'b', 'c']), 1000],
-    'mathMax': lambda rnd: [rnd.choice([1000, 300, 2]) for _ in range(rnd.randint(1, 4))],
-    'mathMin': lambda rnd: [rnd.choice([1000, 300, 2]) for _ in range(rnd.randint(1, 4))],
+    'mathMax': lambda rnd: [rnd.choice([1000, 300, 2, 10 ** 9, 10 ** 9 + 1]) for _ in range(rnd.randint(1, 4))],
+    'mathMin': lambda rnd: [rnd.choice([1000, 300, 2, 10 ** 9, 10 ** 9 + 1]) for _ in range(rnd.randint(1, 4))],
 }
 
 
